@@ -102,6 +102,11 @@ def check_rq(rq):
             elif kind == "Aggregate":
                 use_cids(v.get("partition", []), w + ".partition", vis)
                 use_cids(v.get("compute", []), w + ".compute", vis)
+                # an aggregation outputs its partition and its computed columns: nothing else of its input is visible behind it
+                keep = set(v.get("partition", [])) | set(v.get("compute", []))
+                for c in list(vis):
+                    if c not in keep:
+                        vis.discard(c)
             elif kind == "Sort":
                 use_cids([s["column"] for s in v], w, vis)
             elif kind == "Take":
@@ -152,6 +157,12 @@ CORPUS = [
     "from a\nselect {id, u}\nintersect (from b | select {id, v})\n",
     "from a\nderive {g = case [u > 1 => 'hi', true => 'lo']}\ngroup g (aggregate {n = count this})\n",
     "from x\njoin (from a | group u (aggregate {n = count this})) (x.k == u)\nselect {x.k, n}\n",
+    # the sort of an appended sub-pipeline stays inside it: what follows the append is ordered by the top's sort
+    "from a\nselect {id, u}\nsort {-u}\nappend (from b | select {id, v = v * 2} | sort v)\nderive rn = (row_number this)\n",
+    "from a\nselect {id, u}\nsort {-u}\nappend (from b | select {id, v} | sort v)\ntake 2\n",
+    # an aliased, computed group key is declared once, in front of the aggregation
+    "from a\ngroup {d = u + 1} (aggregate {n = count this, total = sum id} | derive {avg = total / n})\nsort d\n",
+    "from a\ngroup {d = u + 1} (sort id | take 2 | derive {r = row_number this})\n",
 ]
 
 
